@@ -142,9 +142,13 @@ func TestC10_Reorg(t *testing.T) {
 		seen := map[string]*sim.ChainState{}
 		nontrivial := false
 		var sigParts []string
-		nSwitch := rapid.IntRange(1, 4).Draw(t, "nSwitch")
+		nSwitch := rapid.IntRange(1, 5).Draw(t, "nSwitch")
+		var visited []target
 		for s := 0; s < nSwitch; s++ {
 			tg := targets[rapid.IntRange(0, len(targets)-1).Draw(t, "target")]
+			if len(visited) > 1 && rapid.IntRange(0, 2).Draw(t, "revisit") == 0 {
+				tg = visited[rapid.IntRange(0, len(visited)-1).Draw(t, "which")]
+			}
 			if tg.name == cur.name {
 				continue
 			}
@@ -202,6 +206,7 @@ func TestC10_Reorg(t *testing.T) {
 				}
 			}
 			seen[tg.name] = got
+			visited = append(visited, tg)
 			if fp, msg := sim.CheckHeadCommitment(n.Nodes[sim.Zone]); fp != "" {
 				stats.Violation(t, part, "C10/commitment/"+fp, fmt.Sprintf("after %s -> %s: %s", cur.name, tg.name, msg), dump())
 				return
